@@ -239,3 +239,103 @@ Print Assumptions C04_frame_modlist_clear.
 Print Assumptions C04_frame_new.
 Print Assumptions C04_frame_attribute_edits.
 Print Assumptions C04_example.
+
+(* ---------- the aggregate iterators (section.byte_blocks, module.code_blocks, ir.cfg_nodes, ...) ---------- *)
+(* Model/Aggregates.v transcribes them as itertools.chain compositions over the owning collections; in every reachable
+   state each enumerates exactly the nodes of the stated kind whose .section / .module / .ir is the scope, each once.
+   Proofs in Proofs/AggregateProofs.v. *)
+From V Require Import Aggregates.
+From V Require AggregateProofs.
+
+Theorem C04_aggregates_section : forall w known s, reachable_k w known ->
+  (forall n, In n (sec_byte_intervals w s) <-> kindof w n = KBI /\ par w n = Some s) /\
+  (forall n, In n (sec_byte_blocks w s) <-> is_block (kindof w n) = true /\ section_of w n = Some s) /\
+  (forall n, In n (sec_code_blocks w s) <-> kindof w n = KCode /\ section_of w n = Some s) /\
+  (forall n, In n (sec_data_blocks w s) <-> kindof w n = KData /\ section_of w n = Some s) /\
+  NoDup (sec_byte_intervals w s) /\ NoDup (sec_byte_blocks w s) /\
+  NoDup (sec_code_blocks w s) /\ NoDup (sec_data_blocks w s).
+Proof. intros w known s R. exact (AggregateProofs.reach_section_aggregates w known R s). Qed.
+
+Theorem C04_aggregates_module : forall w known m, reachable_k w known ->
+  (forall n, In n (mod_sections w m) <-> kindof w n = KSec /\ par w n = Some m) /\
+  (forall n, In n (mod_symbols w m) <-> kindof w n = KSym /\ par w n = Some m) /\
+  (forall n, In n (mod_proxies w m) <-> kindof w n = KProxy /\ par w n = Some m) /\
+  (forall n, In n (mod_byte_intervals w m) <-> kindof w n = KBI /\ module_of w n = Some m) /\
+  (forall n, In n (mod_byte_blocks w m) <-> is_block (kindof w n) = true /\ module_of w n = Some m) /\
+  (forall n, In n (mod_code_blocks w m) <-> kindof w n = KCode /\ module_of w n = Some m) /\
+  (forall n, In n (mod_data_blocks w m) <-> kindof w n = KData /\ module_of w n = Some m) /\
+  (forall n, In n (mod_cfg_nodes w m) <-> (kindof w n = KCode \/ kindof w n = KProxy) /\ module_of w n = Some m) /\
+  NoDup (mod_sections w m) /\ NoDup (mod_symbols w m) /\ NoDup (mod_proxies w m) /\
+  NoDup (mod_byte_intervals w m) /\ NoDup (mod_byte_blocks w m) /\
+  NoDup (mod_code_blocks w m) /\ NoDup (mod_data_blocks w m) /\ NoDup (mod_cfg_nodes w m).
+Proof. intros w known m R. exact (AggregateProofs.reach_module_aggregates w known R m). Qed.
+
+Theorem C04_aggregates_ir : forall w known ir, reachable_k w known ->
+  (forall n, In n (ir_sections w ir) <-> kindof w n = KSec /\ ir_of w n = Some ir) /\
+  (forall n, In n (ir_symbols w ir) <-> kindof w n = KSym /\ ir_of w n = Some ir) /\
+  (forall n, In n (ir_proxy_blocks w ir) <-> kindof w n = KProxy /\ ir_of w n = Some ir) /\
+  (forall n, In n (ir_byte_intervals w ir) <-> kindof w n = KBI /\ ir_of w n = Some ir) /\
+  (forall n, In n (ir_byte_blocks w ir) <-> is_block (kindof w n) = true /\ ir_of w n = Some ir) /\
+  (forall n, In n (ir_code_blocks w ir) <-> kindof w n = KCode /\ ir_of w n = Some ir) /\
+  (forall n, In n (ir_data_blocks w ir) <-> kindof w n = KData /\ ir_of w n = Some ir) /\
+  (forall n, In n (ir_cfg_nodes w ir) <-> (kindof w n = KCode \/ kindof w n = KProxy) /\ ir_of w n = Some ir) /\
+  NoDup (ir_sections w ir) /\ NoDup (ir_symbols w ir) /\ NoDup (ir_proxy_blocks w ir) /\
+  NoDup (ir_byte_intervals w ir) /\ NoDup (ir_byte_blocks w ir) /\
+  NoDup (ir_code_blocks w ir) /\ NoDup (ir_data_blocks w ir) /\ NoDup (ir_cfg_nodes w ir).
+Proof. intros w known ir R. exact (AggregateProofs.reach_ir_aggregates w known R ir). Qed.
+
+(* the selector the harness compares against the implementation: every enumerated node is a strict descendant of
+   the scope (a non-empty chain of parent attributes leads from it to the scope), it is exactly the set the
+   forest implies for that scope kind and selector, and nothing is listed twice *)
+Theorem C04_aggregates_selector : forall w known scope, reachable_k w known -> has w scope = true -> forall a n,
+  (In n (aggregate w scope a) -> AggregateProofs.strict_desc w scope n) /\
+  (In n (aggregate w scope a) <->
+   match kindof w scope, a with
+   | KSec, 0 => kindof w n = KBI /\ par w n = Some scope
+   | KSec, 1 => is_block (kindof w n) = true /\ section_of w n = Some scope
+   | KSec, 2 => kindof w n = KCode /\ section_of w n = Some scope
+   | KSec, 3 => kindof w n = KData /\ section_of w n = Some scope
+   | KMod, 0 => kindof w n = KBI /\ module_of w n = Some scope
+   | KMod, 1 => is_block (kindof w n) = true /\ module_of w n = Some scope
+   | KMod, 2 => kindof w n = KCode /\ module_of w n = Some scope
+   | KMod, 3 => kindof w n = KData /\ module_of w n = Some scope
+   | KMod, 4 => (kindof w n = KCode \/ kindof w n = KProxy) /\ module_of w n = Some scope
+   | KIR, 0 => kindof w n = KBI /\ ir_of w n = Some scope
+   | KIR, 1 => is_block (kindof w n) = true /\ ir_of w n = Some scope
+   | KIR, 2 => kindof w n = KCode /\ ir_of w n = Some scope
+   | KIR, 3 => kindof w n = KData /\ ir_of w n = Some scope
+   | KIR, 4 => (kindof w n = KCode \/ kindof w n = KProxy) /\ ir_of w n = Some scope
+   | KIR, 5 => kindof w n = KSec /\ ir_of w n = Some scope
+   | KIR, 6 => kindof w n = KSym /\ ir_of w n = Some scope
+   | KIR, 7 => kindof w n = KProxy /\ ir_of w n = Some scope
+   | _, _ => False
+   end) /\
+  NoDup (aggregate w scope a).
+Proof. intros w known scope R H. exact (AggregateProofs.aggregate_exact w known scope R H). Qed.
+
+(* non-vacuity: IR 1 > modules 2, 3; module 2 > section 4, symbol 5, proxy 6; section 4 > intervals 7, 8;
+   interval 7 > code 9, data 10; interval 8 > code 11; module 3 > section 12 > interval 13 > data 14 *)
+Example C04_aggregates_example :
+  let ops := [ONew 1 KIR 101 None 0 0 0 PNone; ONew 2 KMod 102 None 0 0 0 PNone; ONew 3 KMod 103 None 0 0 0 PNone;
+              ONew 4 KSec 104 None 0 0 0 PNone; ONew 5 KSym 105 None 0 0 7 PNone; ONew 6 KProxy 106 None 0 0 0 PNone;
+              ONew 7 KBI 107 None 16 0 0 PNone; ONew 8 KBI 108 None 16 0 0 PNone;
+              ONew 9 KCode 109 None 4 0 0 PNone; ONew 10 KData 110 None 4 4 0 PNone; ONew 11 KCode 111 None 4 0 0 PNone;
+              ONew 12 KSec 112 None 0 0 0 PNone; ONew 13 KBI 113 None 16 0 0 PNone; ONew 14 KData 114 None 4 0 0 PNone;
+              OModAppend 1 2; OModAppend 1 3;
+              OSetParent 4 (Some 2); OSetParent 5 (Some 2); OSetParent 6 (Some 2);
+              OSetParent 7 (Some 4); OSetParent 8 (Some 4);
+              OSetParent 9 (Some 7); OSetParent 10 (Some 7); OSetParent 11 (Some 8);
+              OSetParent 12 (Some 3); OSetParent 13 (Some 12); OSetParent 14 (Some 13)] in
+  let w := fst (run_guarded w0 [] ops) in
+  all_guarded_ok w0 [] ops = true /\
+  map (aggregate w 4) [0; 1; 2; 3] = [[7; 8]; [9; 10; 11]; [9; 11]; [10]] /\
+  map (aggregate w 2) [0; 1; 2; 3; 4] = [[7; 8]; [9; 10; 11]; [9; 11]; [10]; [9; 11; 6]] /\
+  map (aggregate w 1) [0; 1; 2; 3; 4; 5; 6; 7] =
+    [[7; 8; 13]; [9; 10; 11; 14]; [9; 11]; [10; 14]; [9; 11; 6]; [4; 12]; [5]; [6]].
+Proof. vm_compute. repeat split. Qed.
+
+Print Assumptions C04_aggregates_section.
+Print Assumptions C04_aggregates_module.
+Print Assumptions C04_aggregates_ir.
+Print Assumptions C04_aggregates_selector.
+Print Assumptions C04_aggregates_example.
